@@ -12,7 +12,7 @@ PROP = {
         ],
         "lanes": [
             native("c01"),
-            miri("c01", seeds_q=0, seeds_t=8, scale=1),
+            miri("c01", seeds_q=0, seeds_t=8, scale=1, args={"cases": 8}),
             san("asan", "c01", scale=10),
         ],
     }
